@@ -26,6 +26,12 @@ JOBS = [
               [('len_odd', 'in_georef.len >= 9 && in_georef.len % 2 == 1'), ('len_gt26', 'in_georef.len > 26 && in_georef.len % 2 == 0')]),
     Job('GARS.Reverse', 'GARS::Reverse', ['C18', 'C13', 'C14'], replace=[LOOKUP], unwind=5, timeout=300, description='GARS decoder'),
     Job('Geohash.Reverse', 'Geohash::Reverse', ['C18', 'C13', 'C14'], replace=[LOOKUP], unwind=19, timeout=300, description='Geohash decoder'),
+    Job('OSGB.CheckCoords', 'OSGB::CheckCoords', ['C18', 'C13', 'C14'], timeout=300, description='OSGB range check'),
+    Job('OSGB.GridReference', 'OSGB::GridReference', ['C18', 'C13', 'C14'], select=r'^real x', unwind=12, timeout=300,
+        replace=[('OSGB::CheckCoords', dict(may_throw=True))], description='OSGB encoder',
+        cases=[('p%d' % k, 'in_prec == %d' % k) for k in range(0, 12)] + [('p_out', 'in_prec < 0 || in_prec > 11')]),
+    Job('OSGB.GridReference_rev', 'OSGB::GridReference', ['C18', 'C13', 'C14'], select=r'^const', cname='OSGB_GridReference_rev',
+        unwind=13, strcap=64, timeout=300, replace=[LOOKUP], description='OSGB decoder'),
 ]
 
 
